@@ -28,7 +28,7 @@ ChildrenOf(nd) ==
       [] nd.k = "opt" -> NZ({nd.d, nd.dom})
       [] nd.k = "pred" -> {nd.arg}
       [] nd.k = "tmpl" -> {nd.ps[i].n : i \in 1 .. Len(nd.ps)}
-      [] nd.k = "apply" -> {nd.src}
+      [] nd.k = "apply" -> NZ({nd.src, nd.fp})
       [] nd.k = "bind" -> NZ({nd.src, nd.other}) \cup {nd.lk[i].n : i \in 1 .. Len(nd.lk)}
       [] nd.k = "switch" -> NZ({nd.d, nd.dflt}) \cup {nd.lk[i].n : i \in 1 .. Len(nd.lk)}
       [] nd.k = "case" -> NZ({nd.d, nd.dflt}) \cup UNION {{nd.cases[i].n, nd.cases[i].c} : i \in 1 .. Len(nd.cases)}
